@@ -18,6 +18,12 @@ Proof.
   destruct (create (join_date c t) d1 (tick s)) as [d2 tk]. simpl. repeat split; reflexivity.
 Qed.
 
+Lemma refresh_life c s t : life (refresh c s t) = life s /\ panics (refresh c s t) = panics s.
+Proof.
+  unfold refresh. destruct (match max_files c with Some m => prune c m (dir s) | None => (dir s, []) end) as [d1 rm].
+  destruct (create (join_date c t) d1 (tick s)) as [d2 tk]. simpl. split; reflexivity.
+Qed.
+
 Lemma upd_same f i v : upd f i v i = v.
 Proof. unfold upd. rewrite Nat.eqb_refl. reflexivity. Qed.
 Lemma upd_other f i v j : j <> i -> upd f i v j = f j.
@@ -37,13 +43,15 @@ Definition valid_ev (e : event) : Prop := match e with Start _ t _ => 0 <= t < T
 
 Section Shared.
   Variable c : config.
-  Variable pre : list file.
-  Variable tick0 : N.
+  Variable sp : state.            (* what the previous lifetimes (or nobody: [blank pre tick0]) left behind *)
   Variable t0 : Z.
   Hypothesis Ht0 : 0 <= t0 < TBOUND.
-  Hypothesis Hpre : PreOK pre tick0.
+  Hypothesis Hsp : GoodFS sp.
   Let k := rot c.
-  Let s0 := init c pre tick0 t0.
+  Let s0 := restart c sp t0.
+
+  (* the state right after construction, with [create]'s result named *)
+  Ltac base := unfold s0, restart; rewrite (next_ok_small (rot c) t0 (proj2 Ht0)); destruct (create _ _ _).
 
   Inductive reach : state -> Prop :=
   | reach_init : reach s0
@@ -69,7 +77,15 @@ Section Shared.
     | |- context [lands (refresh c ?s ?t)] => rewrite (proj1 (proj2 (proj2 (proj2 (proj2 (proj2 (proj2 (proj2 (refresh_fields c s t)))))))))
     | |- context [pend (refresh c ?s ?t)] => rewrite (proj1 (proj2 (proj2 (proj2 (proj2 (proj2 (proj2 (proj2 (proj2 (refresh_fields c s t))))))))))
     | |- context [overlapped (refresh c ?s ?t)] => rewrite (proj1 (proj2 (proj2 (proj2 (proj2 (proj2 (proj2 (proj2 (proj2 (proj2 (proj2 (refresh_fields c s t))))))))))))
+    | |- context [life (refresh c ?s ?t)] => rewrite (proj1 (refresh_life c s t))
+    | |- context [panics (refresh c ?s ?t)] => rewrite (proj2 (refresh_life c s t))
     | |- context [maxstart (refresh c ?s ?t)] => rewrite (proj2 (proj2 (proj2 (proj2 (proj2 (proj2 (proj2 (proj2 (proj2 (proj2 (proj2 (refresh_fields c s t))))))))))))
+    end.
+
+  (* the panic branch of the compare_exchange step cannot be taken by a clock reading in range *)
+  Ltac kill_panic := match goal with
+    | Hok : next_ok (rot c) ?x = false, I : (forall i p, pcs ?s i = Some p -> 0 <= time_of p < TBOUND), Hpc : pcs ?s _ = Some (PCas ?x _ _ _) |- _ =>
+        exfalso; generalize (I _ _ Hpc); simpl; intros Hb; rewrite (next_ok_small (rot c) x (proj2 Hb)) in Hok; discriminate
     end.
 
   (* finds the event in the context; names the thread [i] *)
@@ -78,6 +94,7 @@ Section Shared.
     match goal with |- context [match pcs s ?j with _ => _ end] =>
       destruct (pcs s j) as [[?t ?b ?g|?t ?b ?n ?g|?t ?b ?g|?t ?b ?g|?t ?b ?f ?g]|] eqn:Hpc; simpl end;
     repeat match goal with
+      | |- context [if negb (next_ok (rot c) ?x) then _ else _] => destruct (next_ok (rot c) x) eqn:Hok; simpl; [|try kill_panic]
       | |- context [match should_rollover ?a ?x with _ => _ end] => destruct (should_rollover a x) eqn:Hsr; simpl
       | |- context [if next s =? ?n then _ else _] => destruct (next s =? n) eqn:Hn; simpl
       | |- context [match readers s with _ => _ end] => destruct (readers s) eqn:Hrd; simpl
@@ -98,7 +115,7 @@ Section Shared.
   Lemma invT : forall s, reach s -> InvT s.
   Proof.
     induction 1 as [|s e R IH V].
-    - unfold s0, init. destruct (create _ _ _). unfold InvT; simpl. repeat split; try discriminate; try tauto; lia.
+    - base. unfold InvT; simpl. repeat split; try discriminate; try tauto; lia.
     - destruct IH as [I1 [I2 [I3 [I4 I5]]]].
       step_cases s; unfold InvT; simpl; rf; auto.
       all: simpl in V.
@@ -108,6 +125,11 @@ Section Shared.
       all: try (intros j m u [Hj|Hj]; [inversion Hj; subst; lia|eauto]).
       all: try (intros j m u Hj; specialize (I5 _ _ _ Hj); lia).
   Qed.
+
+  Ltac kill_panic ::= match goal with
+    | Hok : next_ok (rot c) ?x = false, R : reach ?s, Hpc : pcs ?s _ = Some (PCas ?x _ _ _) |- _ =>
+        exfalso; generalize (proj1 (invT s R) _ _ Hpc); simpl; intros Hb; rewrite (next_ok_small (rot c) x (proj2 Hb)) in Hok; discriminate
+    end.
 
   Ltac dH H := match type of H with
     | exists _, _ => let x := fresh "x" in destruct H as [x H]; dH H
@@ -123,7 +145,7 @@ Section Shared.
   Lemma invRP : forall s, reach s -> InvRP s.
   Proof.
     induction 1 as [|s e R IH V].
-    - unfold s0, init. destruct (create _ _ _). unfold InvRP; simpl. split; intros i; (split; [tauto|]); [intros [? [? [? [? H]]]]|intros [? [? [? H]]]]; discriminate.
+    - base. unfold InvRP; simpl. split; intros i; (split; [tauto|]); [intros [? [? [? [? H]]]]|intros [? [? [? H]]]]; discriminate.
     - destruct IH as [I1 I2].
       step_cases s; unfold InvRP; simpl; rf; auto.
       all: try rewrite Hrd.
@@ -172,7 +194,7 @@ Section Shared.
   Lemma invN : forall s, reach s -> InvN s.
   Proof.
     induction 1 as [|s e R IH V].
-    - unfold s0, init. destruct (create _ _ _). unfold InvN; simpl.
+    - base. unfold InvN; simpl.
       repeat split; try discriminate; try tauto; try constructor.
       unfold k in H. rewrite H. reflexivity.
     - pose proof (invT s R) as IT. pose proof (last_t_range s IT) as HL.
@@ -223,7 +245,7 @@ Section Shared.
   Lemma invF : forall s, reach s -> InvF s.
   Proof.
     induction 1 as [|s e R IH V].
-    - split; [apply FSInv_init; auto|]. unfold s0, init. destruct (create _ _ _). simpl. discriminate.
+    - split; [apply FSInv_restart; [apply next_ok_small; apply Ht0|apply Hsp|apply Hsp]|]. base. simpl. discriminate.
     - pose proof (invRP s R) as [RP1 RP2].
       pose proof IH as IH'. destruct IH' as [F1 F2].
       step_cases s; try exact IH; unfold InvF.
@@ -239,6 +261,19 @@ Section Shared.
         apply F1.
   Qed.
 
+  (** * D'. the lifetime counter: constant during a lifetime; landings are tagged with the lifetime they happened in *)
+  Definition InvE (s : state) : Prop :=
+    life s = S (life sp) /\ (forall l, In l (lands s) -> (l_life l <= life s)%nat).
+
+  Lemma invE : forall s, reach s -> InvE s.
+  Proof.
+    induction 1 as [|s e R IH V].
+    - base. unfold InvE; simpl. split; auto. intros x Hx. destruct Hsp as [_ [_ HE]]. specialize (HE x Hx). lia.
+    - destruct IH as [E1 E2].
+      step_cases s; try (split; assumption); unfold InvE; simpl; rf; (split; [exact E1|]); try exact E2.
+      intros x [<-|Hx]; simpl; auto.
+  Qed.
+
   (** * E. which file a write lands in *)
   Definition ghost_of (p : pc) : opg :=
     match p with PLoad _ _ g | PCas _ _ _ g | PRefresh _ _ g | PRead _ _ g | PAppend _ _ _ g => g end.
@@ -252,7 +287,7 @@ Section Shared.
   Lemma invG : forall s, reach s -> InvG s.
   Proof.
     induction 1 as [|s e R IH V].
-    - unfold s0, init. destruct (create _ _ _). unfold InvG; simpl. discriminate.
+    - base. unfold InvG; simpl. discriminate.
     - step_cases s; try exact IH; unfold InvG; simpl; rf.
       all: try (generalize (IH _ _ Hpc); simpl; intros [G1 G2]).
       all: intros j p Hj; unfold upd in Hj; destruct (Nat.eqb j i) eqn:Eji;
@@ -280,7 +315,7 @@ Section Shared.
     (forall i n t r, rots s = (i, n, t) :: r -> ~ In i (pend s) -> cur s = period_file t) /\
     (rots s = [] -> cur s = period_file t0) /\
     (forall i p, pcs s i = Some p -> pc_ok s i p) /\
-    (forall l, In l (lands s) -> l_clean l = true -> l_nd l = true -> l_file l = period_file (l_t l)).
+    (forall l, In l (lands s) -> l_life l = life s -> l_clean l = true -> l_nd l = true -> l_file l = period_file (l_t l)).
 
   Lemma pc_ok_ext s s' j p :
     rots s' = rots s -> pend s' = pend s -> next s' = next s -> cur s' = cur s -> pc_ok s j p -> pc_ok s' j p.
@@ -307,9 +342,9 @@ Section Shared.
   Lemma invL : forall s, reach s -> InvL s.
   Proof.
     induction 1 as [|s e R IH V].
-    - unfold s0, init. destruct (create _ _ _). unfold InvL; simpl. intros _.
+    - base. unfold InvL; simpl. intros _.
       split; [discriminate|]. split; [intros _; unfold period_file, RollingNameProofs.period_file; fold k; destruct k; reflexivity|].
-      split; [discriminate|tauto].
+      split; [discriminate|]. intros x Hx E. destruct Hsp as [_ [_ HE]]. specialize (HE x Hx). simpl in E. lia.
     - pose proof (invT s R) as IT. pose proof (last_t_range s IT) as HL. destruct IT as [T1 [T2 [T3 [T4 T5]]]].
       pose proof (invRP s R) as [RP1 RP2].
       pose proof (invN s R) as [N1 [N2 [N3 [N4 [N5 [N6 N7]]]]]].
@@ -439,7 +474,7 @@ Section Shared.
         split; [exact L1|split; [exact L2|split]].
         * intros j p Hj. unfold upd in Hj. destruct (Nat.eqb j i) eqn:Eji; [discriminate|].
           eapply pc_ok_ext; [..|eapply L3; eauto]; reflexivity.
-        * intros l [<-|Hl]; [|apply L4; auto]. simpl. intros Hc Hnd. apply OK. split; auto.
+        * intros l [<-|Hl]; [|apply L4; auto]. simpl. intros _ Hc Hnd. apply OK. split; auto.
   Qed.
 
   (** * F. every landing is in a file the appender itself made current: the one made at construction or
@@ -454,13 +489,14 @@ Section Shared.
     opened (rots s) (cur s) /\
     (forall i t b g, pcs s i = Some (PRefresh t b g) -> exists n, In (i, n, t) (rots s)) /\
     (forall i t b f g, pcs s i = Some (PAppend t b f g) -> opened (rots s) f) /\
-    (forall l, In l (lands s) -> opened (rots s) (l_file l)).
+    (forall l, In l (lands s) -> l_life l = life s -> opened (rots s) (l_file l)).
 
   Lemma invO : forall s, reach s -> InvO s.
   Proof.
     induction 1 as [|s e R IH V].
-    - unfold s0, init. destruct (create _ _ _). unfold InvO, opened; simpl.
-      split; [left; reflexivity|]. split; [discriminate|]. split; [discriminate|tauto].
+    - base. unfold InvO, opened; simpl.
+      split; [left; reflexivity|]. split; [discriminate|]. split; [discriminate|].
+      intros x Hx E. destruct Hsp as [_ [_ HE]]. specialize (HE x Hx). lia.
     - pose proof IH as IH'. destruct IH' as [O1 [O2 [O3 O4]]].
       step_cases s; try exact IH; unfold InvO; simpl; rf.
       all: (split; [|split; [|split]]).
@@ -470,9 +506,9 @@ Section Shared.
       all: try (apply opened_cons; assumption).
       + intros j t' b' g' Hj. updc Hj j i; [exists n; left; reflexivity|]. destruct (O2 _ _ _ _ Hj) as [m Hm]. exists m. right; auto.
       + intros j t' b' f' g' Hj. updc Hj j i. apply opened_cons. eauto.
-      + intros l Hl. apply opened_cons. auto.
+      + intros x Hx E. apply opened_cons. auto.
       + destruct (O2 _ _ _ _ Hpc) as [m Hm]. right. exists i, m, t. auto.
-      + intros l [<-|Hl]; simpl; eauto.
+      + intros x [<-|Hx]; simpl; eauto.
   Qed.
 
   (** * The theorems, for every event list *)
@@ -488,8 +524,20 @@ Section Shared.
       lock, and for the schedules without overlapping rotations when it does not *)
   Theorem shared_lands_in_period : forall evs, Forall valid_ev evs ->
     (recheck c = true \/ overlapped (run c s0 evs) = false) ->
-    forall l, In l (lands (run c s0 evs)) -> l_clean l = true -> l_nd l = true -> l_file l = period_file (l_t l).
-  Proof. intros evs V H. apply (invL _ (reach_run evs V) H). Qed.
+    forall l, In l (lands (run c s0 evs)) -> l_life l = S (life sp) -> l_clean l = true -> l_nd l = true ->
+      l_file l = period_file (l_t l).
+  Proof.
+    intros evs V H l Hl E. apply (invL _ (reach_run evs V) H); auto. rewrite (proj1 (invE _ (reach_run evs V))). exact E.
+  Qed.
+
+  (** the lifetime counter does not move, every landing is tagged with a lifetime up to this one, and the state a
+      lifetime leaves behind is fit for the next appender *)
+  Theorem shared_epoch : forall evs, Forall valid_ev evs ->
+    life (run c s0 evs) = S (life sp) /\ GoodFS (run c s0 evs).
+  Proof.
+    intros evs V. destruct (invE _ (reach_run evs V)) as [E1 E2]. destruct (invF _ (reach_run evs V)) as [[HD [_ [HS _]]] _].
+    split; [exact E1|]. split; [exact HD|split; [exact HS|exact E2]].
+  Qed.
 
   (** every buffer is stored exactly once, whole, in order; appends only ever go to a file that exists *)
   Theorem shared_never_lost : forall evs, Forall valid_ev evs ->
@@ -551,8 +599,10 @@ Section Shared.
   (** the overlap clause: whatever the schedule, a buffer lands in a file the appender itself opened -
       the one made at construction or the one of an elected rotation *)
   Theorem shared_lands_in_opened_file : forall evs, Forall valid_ev evs ->
-    forall l, In l (lands (run c s0 evs)) -> opened (rots (run c s0 evs)) (l_file l).
-  Proof. intros evs V. apply (invO _ (reach_run evs V)). Qed.
+    forall l, In l (lands (run c s0 evs)) -> l_life l = S (life sp) -> opened (rots (run c s0 evs)) (l_file l).
+  Proof.
+    intros evs V l Hl E. apply (invO _ (reach_run evs V)); auto. rewrite (proj1 (invE _ (reach_run evs V))). exact E.
+  Qed.
 
   (** a thread that saw boundary [n] reached and attempts the compare_exchange leaves [n] rotated: by itself
       or by the earlier winner - together with NoDup above: exactly one rotation per boundary *)
@@ -561,7 +611,9 @@ Section Shared.
     exists j u, In (j, n, u) (rots (step c (run c s0 evs) (Step i))).
   Proof.
     intros evs V i t b n g Hp. destruct (invN _ (reach_run evs V)) as [_ [_ [_ [_ [N5 _]]]]].
-    destruct (N5 _ _ _ _ _ Hp) as [C1 [C2 C3]]. simpl. rewrite Hp. destruct (next (run c s0 evs) =? n) eqn:E; simpl.
+    destruct (N5 _ _ _ _ _ Hp) as [C1 [C2 C3]]. simpl. rewrite Hp.
+    pose proof (proj1 (invT _ (reach_run evs V)) _ _ Hp) as Hb. simpl in Hb. rewrite (next_ok_small (rot c) t (proj2 Hb)). simpl.
+    destruct (next (run c s0 evs) =? n) eqn:E; simpl.
     - exists i, t. left; reflexivity.
     - apply Z.eqb_neq in E. apply C3. lia.
   Qed.
